@@ -34,7 +34,10 @@ def run_stream(ctx, r, idx):
 	for i in range(n):
 		rx, tx = (890000, 935000) if i == 0 else (935000, 890000)
 		if not (cmd(i, "RXTUNE %d" % rx) and cmd(i, "TXTUNE %d" % tx) and
-			cmd(i, "SETFORMAT %d" % r.choice((0, 1)))):
+			cmd(i, "SETFORMAT %d" % r.choice((0, 1))) and
+			# (a sender's timing advance and attenuation and the recipient's simulated values are none of a NOPE's business)
+			cmd(i, "SETTA %d" % r.choice((0, 0, 1, 5, 63))) and cmd(i, "SETPOWER %d" % r.choice((0, 0, 10))) and
+			cmd(i, "FAKE_TOA %d 0" % r.choice((0, 0, 100, -300))) and cmd(i, "FAKE_CI %d 0" % r.choice((90, 90, 40)))):
 			return
 	for i in range(n):
 		if not bench.models[i].running and not cmd(i, "POWERON"):
